@@ -591,14 +591,14 @@ func doReplay(root, bin, dir, prop, file string) int {
 		wr := runWorker(bin, job, dir, 10*time.Minute)
 		if rf.Rule == "process-crash" {
 			if wr.exit != 0 && wr.exit != 3 && wr.exit != 4 {
-				fmt.Printf("VIOLATION property=%s replay=%s\n  rule=process-crash\n%s\n", prop, file, firstLines(wr.log, 30))
+				fmt.Printf("VIOLATION property=%s replay=%s\n  rule=process-crash\n%s\n", prop, file, firstLines(wr.log, logLines()))
 				return 1
 			}
 			continue
 		}
 		if rf.Rule == "deadlock" {
 			if wr.exit == 4 && deadlockSite(wr.log) == rf.Class {
-				fmt.Printf("VIOLATION property=%s replay=%s\n  rule=deadlock class=%s\n%s\n", prop, file, rf.Class, firstLines(wr.log, 30))
+				fmt.Printf("VIOLATION property=%s replay=%s\n  rule=deadlock class=%s\n%s\n", prop, file, rf.Class, firstLines(wr.log, logLines()))
 				return 1
 			}
 			continue
@@ -745,3 +745,12 @@ func shm() string {
 }
 
 var _ = json.Marshal
+
+// logLines is how much of a crashed worker's output is shown (VERIF_LOG_LINES
+// raises it for debugging).
+func logLines() int {
+	if v, err := strconv.Atoi(os.Getenv("VERIF_LOG_LINES")); err == nil && v > 0 {
+		return v
+	}
+	return 30
+}
